@@ -220,6 +220,11 @@ def oracle(tr, f, target=None):
             a = bf(lf["alpha"])
             if not math.isnan(ex) and abs(a - ex) > 1e-4 * (1 + ex) and abs(j - joint0) < 80:
                 return "doubling %d: leaf acceptance term %r, min(1, exp(energy change)) = %r" % (k, a, ex)
+            if math.isnan(j) and not math.isnan(joint0) and a != 0.0:
+                return ("doubling %d: a leaf outside the target's domain (joint density NaN) enters the acceptance statistic as %r; "
+                        "it is a rejected leaf (0) — counted as 1 it drives the adapted step size to infinity" % (k, a))
+            if not (0.0 <= a <= 1.0):
+                return "doubling %d: leaf acceptance term %r outside [0, 1]" % (k, a)
             asum += a
         if diverged and len(idxs) == 2 ** k and e["s"]:
             pass  # s' must be false when a leaf diverged; checked below through the model-free rule
